@@ -48,7 +48,7 @@ def rand_text(rng, maxlen=12):
 def rand_json_value(rng, depth=0):
     r = rng.random()
     if depth > 3 or r < 0.45:
-        return rng.choice(["0", "1", "-1", "12.5", "1e9", "-0.5E-3", "true", "false", "null", '""', '"x"', '"a\\"b"', '"\\\\"', '"]}"',
+        return rng.choice(["0", "1", "-1", "12.5", "1e9", "-0.5E-3", "1e+3", "2.5E+3", "-6.02e+23", "0.0", "1E5", "true", "false", "null", '""', '"x"', '"a\\"b"', '"\\\\"', '"]}"',
                            '"\\u00e9"', '"id"', "65536", "18446744073709551616"])
     if r < 0.7:
         items = [rand_json_value(rng, depth + 1) for _ in range(rng.choice([0, 1, 2, 3]))]
